@@ -519,7 +519,7 @@ Qed.
 Lemma count_gate_bound pol n esz G a :
   pol <> PGen -> (pol = PRefl -> listValueMaxSize * esz <= G) -> count_gate pol n esz = Some a -> a <= G.
 Proof.
-  intros Hpol HG Hc. unfold count_gate in Hc. destruct pol; [congruence| |inversion Hc; lia].
+  intros Hpol HG Hc. unfold count_gate in Hc. destruct pol; [congruence| |inversion Hc as [Ha]; lia].
   specialize (HG eq_refl).
   destruct (2 ^ 31 <=? n); [discriminate|]. destruct (listValueMaxSize <? n) eqn:Hmax; [discriminate|].
   inversion Hc as [Ha]. apply N.ltb_ge in Hmax.
